@@ -11,7 +11,10 @@
 use super::Rule;
 use super::{Calculator, Controller};
 use crate::system_metric;
+#[cfg(not(sentinel_verif))]
 use std::sync::{Arc, Weak};
+#[cfg(sentinel_verif)]
+use sentinel_verif_rt::sync::{Arc, Weak};
 
 #[derive(Debug)]
 pub struct MemoryAdaptiveCalculator {
